@@ -17,18 +17,21 @@
 package vk
 
 import (
+	"bytes"
 	"encoding/binary"
 	"encoding/json"
 	"errors"
 	"fmt"
 	"hash/fnv"
 	"os"
+	"os/exec"
 	"path/filepath"
 	"runtime/debug"
 	"sort"
 	"strconv"
 	"strings"
 	"sync"
+	"syscall"
 	"testing"
 	"time"
 
@@ -710,4 +713,77 @@ func EachString(alpha string, lo, hi int, yield func(s string) bool) bool {
 		}
 	}
 	return true
+}
+
+// ChildResult is the outcome of replaying a case in a fresh child process.
+type ChildResult struct {
+	Status string // pass | fail | timeout | crashed
+	Output string
+}
+
+// InChild reports whether this process is such a child.
+func InChild() bool { return os.Getenv("VERIF_CHILD") == "1" }
+
+// RunInChild replays the case through the same test binary in a fresh process with a
+// virtual-memory cap (MB, 0 = none) and a wall-clock limit. Used where poly may not terminate
+// or may allocate without bound.
+func RunInChild[C any](s *Sub[C], c C, limit time.Duration, memMB int) ChildResult {
+	dir := WorkDir()
+	path := filepath.Join(dir, fmt.Sprintf("child-%s-%d.json", s.Name, time.Now().UnixNano()))
+	writeCase(path, s.Name, c, "")
+	defer os.Remove(path)
+	cmdline := fmt.Sprintf("exec %q -test.run '^TestReplay$' -test.timeout %ds", os.Args[0], int(limit.Seconds())+30)
+	if memMB > 0 {
+		cmdline = fmt.Sprintf("ulimit -v %d; %s", memMB*1024, cmdline)
+	}
+	cmd := exec.Command("/bin/sh", "-c", cmdline)
+	cmd.Env = append(os.Environ(), "VERIF_CHILD=1", "VERIF_REPLAY="+path, "VERIF_OUT=")
+	cmd.SysProcAttr = &syscall.SysProcAttr{Setpgid: true}
+	var out bytes.Buffer
+	cmd.Stdout, cmd.Stderr = &out, &out
+	if err := cmd.Start(); err != nil {
+		return ChildResult{"crashed", "cannot start child: " + err.Error()}
+	}
+	done := make(chan error, 1)
+	go func() { done <- cmd.Wait() }()
+	select {
+	case <-done:
+	case <-time.After(limit):
+		_ = syscall.Kill(-cmd.Process.Pid, syscall.SIGKILL)
+		<-done
+		return ChildResult{"timeout", tail(out.String(), 3000)}
+	}
+	o := out.String()
+	switch {
+	case strings.Contains(o, "VERIF-REPLAY-PASS"):
+		return ChildResult{"pass", ""}
+	case strings.Contains(o, "VERIF-REPLAY-FAIL"):
+		return ChildResult{"fail", tail(o, 3000)}
+	}
+	return ChildResult{"crashed", tail(o, 3000)}
+}
+
+func tail(s string, n int) string {
+	if len(s) > n {
+		return "…" + s[len(s)-n:]
+	}
+	return s
+}
+
+// AbortCase ends the process on a case that cannot be survived (poly keeps running away in
+// goroutines of its own after a deadline): the case is written as the replay file, the
+// statistics are flushed, and the process exits with a failure. No shrinking happens.
+func AbortCase[C any](s *Sub[C], c C, err error) {
+	writeCase(replayPath(s.Name), s.Name, c, err.Error())
+	curMu.Lock()
+	r := cur
+	curMu.Unlock()
+	if r != nil {
+		r.mu.Lock()
+		r.failed++
+		r.mu.Unlock()
+		r.flush()
+	}
+	fmt.Printf("--- FAIL: VERIF-ABORT sub=%s: %s\n", s.Name, firstLine(err.Error()))
+	os.Exit(1)
 }
